@@ -24,7 +24,7 @@ RUN_TIMEOUT = 180
 RAND_SEEDS = [11, 22]
 TIERS = {
     "quick": {"runs": 2200, "budget_s": 85, "selftest_seeds": 8},
-    "thorough": {"runs": 60000, "budget_s": 800, "selftest_seeds": 48, "selftest_cross": True, "cold_check": True},
+    "thorough": {"runs": 60000, "budget_s": 1800, "selftest_seeds": 48, "selftest_cross": True, "cold_check": True},
 }
 RULE = ("one run = seeded history of 4-12 op templates (public pyrepseq calls with literal arguments taken from a shared "
         "heap of caller-owned objects), swarm per run: enabled groups, co-scheduling of templates that share a function "
